@@ -223,7 +223,11 @@ def parse_file(path):
             dm = re.match(r'^return\s*\(?\s*(?:\([\w \*]+\)\s*)?(\w+)\s*\(([^()]*)\)\s*\)?$', sts[0])
             if dm:
                 delegate = (dm.group(1), [x.strip() for x in dm.group(2).split(',')])
-        funcs.append({'name': name, 'static': static, 'rtype': rtype, 'params': params, 'guards': guards, 'delegate': delegate})
+        ctor = None
+        cm = re.search(r'self\s*=\s*SPIF_ALLOC\(\w+\)\s*;\s*if\s*\(\s*!\s*(\w+)\s*\(\s*self\s*((?:,[^()]*)?)\)\s*\)\s*\{\s*SPIF_DEALLOC\(self\)', body)
+        if cm:
+            ctor = (cm.group(1), [x.strip() for x in cm.group(2).split(',')[1:]] if cm.group(2) else [])
+        funcs.append({'name': name, 'static': static, 'rtype': rtype, 'params': params, 'guards': guards, 'delegate': delegate, 'ctor': ctor})
     # class tables
     tables = []
     for m in re.finditer(r'static\s+(?:SPIF_CONST_TYPE\((\w+)\)|spif_const_(\w+)_t)\s+(\w+)\s*=\s*\{(.*?)\n\};', src, flags=re.S):
@@ -243,6 +247,8 @@ def valclass(val, rtype):
     v = val.strip()
     if v == 'CMP':
         return 'CMP'
+    if v == '(NULLBAL)':
+        return 'NULLBAL'
     if v == '':
         return 'VOID'
     if re.search(r'\bNAN\b', v):
@@ -296,6 +302,27 @@ def freeze(srcroot):
                     fn['guards'].append((macro, a, val, o))
                 except (ValueError, IndexError):
                     continue
+        # constructors `self = SPIF_ALLOC(t); if (!init(self, a, ...)) { SPIF_DEALLOC(self); self = NULL; }` inherit the guards of
+        # their init function on the forwarded parameters: they must return NULL and leave the heap balanced (the object is
+        # allocated and released again, so "no allocation" is relaxed to "nothing left allocated")
+        for fn in funcs:
+            if fn['guards'] or not fn.get('ctor'):
+                continue
+            callee, cargs = fn['ctor']
+            cf = fmap.get(callee)
+            if not cf or not cf['guards']:
+                continue
+            cnames = [n for _, n in cf['params']]
+            names = [n for _, n in fn['params']]
+            for macro, p, val, other in cf['guards']:
+                if other or p == cnames[0]:
+                    continue
+                try:
+                    a = cargs[cnames.index(p) - 1]
+                except (ValueError, IndexError):
+                    continue
+                if a in names and valclass(val, cf['rtype']) == 'FALSE':
+                    fn['guards'].append((macro, a, '(NULLBAL)', ''))
         for fn in funcs:
             routes = []
             if not fn['static']:
@@ -359,9 +386,9 @@ def sample(ty, name, fn):
     t = ty.replace('const ', '').strip()
     t = ' '.join(t.split())
     simple = {
-        'spif_str_t': 'mk_str()', 'spif_ustr_t': 'mk_ustr()', 'spif_mbuff_t': 'mk_mbuff()', 'spif_obj_t': 'mk_obj()',
+        'spif_str_t': 'mk_str(variant)', 'spif_ustr_t': 'mk_ustr(variant)', 'spif_mbuff_t': 'mk_mbuff(variant)', 'spif_obj_t': 'mk_obj(variant)',
         'spif_charptr_t': 'mk_cstr()', 'spif_byteptr_t': '(spif_byteptr_t) mk_cstr()', 'char *': 'mk_cstr()', 'spif_ptr_t': '(spif_ptr_t) mk_cstr()',
-        'spif_objpair_t': 'mk_pair()', 'spif_tok_t': 'mk_tok()', 'spif_url_t': 'mk_url()', 'spif_regexp_t': 'mk_regexp()',
+        'spif_objpair_t': 'mk_pair(variant)', 'spif_tok_t': 'mk_tok(variant)', 'spif_url_t': 'mk_url(variant)', 'spif_regexp_t': 'mk_regexp()',
         'spif_socket_t': 'mk_socket()', 'spif_array_t': 'mk_array(K)', 'spif_linked_list_t': 'mk_llist(K)', 'spif_dlinked_list_t': 'mk_dlist(K)',
         'spif_list_t': 'mk_list()', 'spif_vector_t': 'mk_vector()', 'spif_map_t': 'mk_map()',
         'spif_array_iterator_t': 'mk_array_iter()', 'spif_linked_list_iterator_t': 'mk_llist_iter()', 'spif_dlinked_list_iterator_t': 'mk_dlist_iter()',
@@ -451,7 +478,7 @@ def emit():
             callee = '((%s (*)(%s)) (((void **) (%s))[%d]))' % (rtype, ptypes, tabsyms[sym], r['slot'])
         body = []
         body.append('static void c16_case_%d(struct c16_res *res, int variant)\n{' % n)
-        has_scalar = any('C16_SCALAR' in a for a in args)
+        has_scalar = any('C16_SCALAR' in a or '(variant)' in a for a in args)
         for i, a in enumerate(args):
             body.append('    %s a%d = %s;' % (params[i][0] if params[i][0] != '...' else 'int', i, a))
         body.append('    c16_snap_begin(res);')
@@ -469,8 +496,10 @@ def emit():
                 body.append('    res->value_ok = isnan((double) r);')
             elif vc in ('FALSE', 'ZERO'):
                 body.append('    res->value_ok = (r == (%s) 0);' % rtype)
-            elif vc == 'NULL':
+            elif vc in ('NULL', 'NULLBAL'):
                 body.append('    res->value_ok = (r == (%s) 0);' % rtype)
+                if vc == 'NULLBAL':
+                    body.append('    res->balanced_only = 1;')
             elif vc == 'NULLSTR':
                 body.append('    res->value_ok = (r != 0 && !strcmp((const char *) r, (const char *) (%s)));' % r['val'])
             elif vc == 'MINUS1':
